@@ -36,6 +36,11 @@ CLAIMED = {
          "out(--unique) must be exactly the first-occurrence filter of out(without) under = on the list of selected values (absent only equals absent), for 0..3 selections over pools rich in equal-but-differently-spelled values.",
          "Trusted: reference equality of the harness; universe restricted as the quantifier says.",
          "DESIGN.md §3 C10"),
+ "C05": ("exploration",
+         "exhaustive enumeration of all byte strings up to length 5/6 over a 24-byte JSON alphabet, mutation-based random byte strings, stratified type-directed expression generation with ill-typed arguments and boundary numbers, directed sweeps (byte offsets in multi-byte strings, strftime specifiers); crash oracle = catch_unwind + SIGABRT reporter + watchdog",
+         "Every explored (input bytes, policy, pipeline) and (expression, position, input) must make go() return Ok or Err: no panic, no abort, no hang. Exhaustive for the stated byte sub-space, exploration beyond it.",
+         "Trusted: release semantics (overflow checks off); allocation-size arguments kept within the bound the property states (<= 10^4); watchdog 60 s + isolated re-run decides 'hang'.",
+         "DESIGN.md §3 C05"),
  "C06": ("exploration",
          "differential property-based testing: generated streams with garbage tokens at every gap x 4 policies x 8 pipelines, compared with the noise-free run of the same pipeline plus placement rules for error: lines",
          "Noise must not change rows (ignore), must add >= 1 error: line per malformed region on exactly the chosen stream and in the right slot (stdout/stderr), and must stop the run with exactly the rows of the preceding values (panic). A clean stream yields no report under any policy.",
